@@ -1,19 +1,147 @@
-"""C02 - lookups and clone queries reflect exactly the nodes in the tree (shared one-step driver, see vlib/mutate.py)."""
+"""C02 - lookups and clone queries reflect exactly the nodes currently in the tree.
 
+Two shard families:
+  * the shared one-step driver (vlib/mutate.py) with unbounded symbolic int
+    labels / explicit ids: after every step the index is compared with a walk;
+  * data flavours: the node data are objects of the flavours the property
+    names (str, int, tuple, frozen dataclass, DictWrapper, objects keyed by a
+    calc_data_id callback), chosen by symbolic selectors from a pool of three
+    (every clone pattern); one symbolic mutation (remove / set_data on a single
+    node or a clone group / add / remove_children) is applied and every lookup
+    by data object, data_id and node_id, the clone queries and `in` are
+    compared with a walk of the tree.
+"""
+
+from dataclasses import dataclass
+
+from vlib import build as B
 from vlib import mutate as MU
 from vlib import mutprops as MP
+from vlib.build import build, shape_str, shapes_upto
 
 ID = "C02"
-FUNCTIONS = MP.FUNCTIONS
+FUNCTIONS = MP.FUNCTIONS + ["Tree.__contains__", "Tree.__getitem__", "Node.get_clones", "Node.is_clone", "Tree.count_unique", "DictWrapper.__hash__", "DictWrapper.__eq__"]
 STUBS = MP.STUBS
-ASSUMPTIONS = MP.ASSUMPTIONS
-TIMEOUTS = {"quick": (300, 30), "thorough": (1200, 60)}
-BOUNDS = MP.bounds
-params = MU.params
+ASSUMPTIONS = MP.ASSUMPTIONS + [
+    "flavour shards: data objects come from a pool of three per flavour; selectors are symbolic (all clone patterns), the body runs concretely",
+]
+TIMEOUTS = {"quick": (600, 30), "thorough": (2400, 60)}
+FLAVOURS = ["str", "int", "tuple", "dataclass", "dictwrapper", "keyed"]
+
+
+@dataclass(frozen=True)
+class Item:
+    name: str
+    n: int
+
+
+class Keyed:
+    def __init__(self, key):
+        self.key = key
+
+
+def BOUNDS(tier):
+    b = MP.bounds(tier)
+    b["flavour_shards"] = {"flavours": FLAVOURS, "max_nodes": 3 if tier == "quick" else 4, "mutations": ["none", "remove", "remove_children", "set_data(with_clones=False)", "set_data(with_clones=True)", "add"]}
+    return b
 
 
 def shards(tier):
-    return MP.make_shards(tier)
+    out = MP.make_shards(tier)
+    n = 3 if tier == "quick" else 4
+    for fl in FLAVOURS:
+        for sh in shapes_upto(n, 1):
+            if B.max_siblings(sh) > 3:
+                continue
+            out.append({"name": "flavour-%s-%s" % (fl, shape_str(sh)), "kind": "flavour", "fl": fl, "shape": list(sh)})
+    return out
 
 
-body = MP.c02_oracle
+def params(desc):
+    if desc.get("kind") == "flavour":
+        n = len(desc["shape"])
+        return [("l%d" % i, "sel", 0, 2) for i in range(n)] + [("m", "sel", 0, 5), ("j", "sel", 0, n - 1), ("k", "sel", 0, 3)]
+    return MU.params(desc)
+
+
+def pool(fl):
+    from nutree.common import DictWrapper
+
+    if fl == "str":
+        return ["a", "b", "c", "d"]
+    if fl == "int":
+        return [11, 12, 13, 14]
+    if fl == "tuple":
+        return [("a", 1), ("a", 2), ("b", 1), ("c", 3)]
+    if fl == "dataclass":
+        return [Item("a", 1), Item("a", 2), Item("b", 1), Item("c", 3)]
+    if fl == "dictwrapper":
+        ds = [{"k": 1}, {"k": 1}, {"k": 2}, {"k": 3}]  # equal content, distinct dicts: not clones
+        return [DictWrapper(d) for d in ds]
+    return [Keyed(1), Keyed(2), Keyed(3), Keyed(4)]
+
+
+def body(ctx, desc, x):
+    if desc.get("kind") != "flavour":
+        return MP.c02_oracle(ctx, desc, x)
+    fl = desc["fl"]
+    shape = tuple(desc["shape"])
+    n = len(shape)
+    P = pool(fl)
+    labels = [P[x["l%d" % i]] for i in range(n)]
+    calc = (lambda tree, d: d.key) if fl == "keyed" else None
+    try:
+        tree, nodes = build(shape, labels, calc=calc)
+    except Exception:  # noqa: BLE001
+        return ""
+    ctx.mark()
+    m, j, k = x["m"], x["j"], x["k"]
+    try:
+        if m == 1:
+            nodes[j].remove()
+        elif m == 2:
+            nodes[j].remove_children()
+        elif m == 3:
+            nodes[j].set_data(P[k], with_clones=False)
+        elif m == 4:
+            nodes[j].set_data(P[k], with_clones=True)
+        elif m == 5:
+            nodes[j].add(P[k])
+    except Exception:  # noqa: BLE001 - refused (uniqueness): the index must still be exact
+        pass
+    c = B.wf(tree)
+    if c:
+        return ""  # C01's subject
+    w = [nd for nd, _ in B.walk(tree)]
+    did = (lambda d: d.key) if fl == "keyed" else hash
+    probe_ids = [did(p) for p in P]
+    c = B.index_exact(tree, probe_ids)
+    if c:
+        return "flavour:" + c
+    for p in P:
+        expect = [nd for nd in w if nd.data_id == did(p)]
+        got = tree.find_all(p)
+        if not B._same_members(got, expect):
+            return "flavour:find_all(data)"
+        f = tree.find_first(p)
+        if (f is None) != (not expect) or (f is not None and not any(f is e for e in expect)):
+            return "flavour:find_first(data)"
+        if (p in tree) != bool(expect):
+            return "flavour:contains"
+        try:
+            r = tree[p]
+            if len(expect) != 1 or r is not expect[0]:
+                return "flavour:getitem"
+        except KeyError:
+            if expect:
+                return "flavour:getitem-keyerror"
+        except Exception as e:  # noqa: BLE001
+            if type(e).__name__ != "AmbiguousMatchError" or len(expect) < 2:
+                return "flavour:getitem-%s" % type(e).__name__
+    for nd in w:
+        # data_id rule: callback applied to the data, else hash(data)
+        if nd.data_id != did(nd.data):
+            return "flavour:data_id-rule"
+        if tree.find_first(node_id=nd.node_id) is not nd:
+            return "flavour:find_first(node_id)"
+    return ""
